@@ -751,6 +751,24 @@ def _sphere_cases(ctx, count):
         if len(ra) >= 2 and not _undecided(np.array(ra), np.array(dec), ll):
             cases.append({'stream': 'sphere', 'kind': 'intgrid', 'cs': 'none', 'll': ll, 'chunksize': None, 'ra': ra, 'dec': dec,
                           'cdtype': rng.choice(['i8', 'i4', 'i8', 'd'])})
+    # rings around a pole: positions at all right ascensions within half a linking length of the pole are one group (their RA
+    # differences are large, their separations small)
+    for _ in range(max(4, count // 30)):
+        ll = rng.choice([0.25, 1.0, 0.05, 3.0]) * rng.uniform(0.8, 1.25)
+        sgn = rng.choice([1, -1])
+        m = rng.choice([2, 2, 3, 4, 6, 9, 12])
+        # two or three positions on opposite sides of the pole are linked directly (separation 2 rho <= L), not through neighbours
+        rho = ll * (rng.uniform(0.34, 0.49) if m <= 3 else rng.uniform(0.1, 0.45))
+        a0 = rng.uniform(0, 360)
+        ra = [(a0 + 360.0 * i / m + rng.uniform(-5, 5)) % 360.0 for i in range(m)]
+        dec = [sgn * (90.0 - rho * rng.uniform(0.9, 1.0)) for _ in range(m)]
+        # plus a few bystanders far away
+        for _ in range(rng.randrange(0, 4)):
+            ra.append(rng.uniform(0, 360))
+            dec.append(sgn * (90.0 - ll * rng.uniform(3, 30)))
+        if not _undecided(np.array(ra), np.array(dec), ll):
+            cs, csk = _bound_cells(ra, dec, ll, None, 'none')
+            cases.append({'stream': 'sphere', 'kind': 'polar-ring', 'cs': csk, 'll': ll, 'chunksize': cs, 'ra': ra, 'dec': dec})
     cases.append({'stream': 'sphere', 'kind': 'one-point', 'cs': 'none', 'll': 1.0, 'chunksize': None, 'ra': [10.0], 'dec': [5.0]})
     return cases
 
@@ -769,7 +787,12 @@ def _sphere(ctx, cases=None, oracle_only=False):
     results = _pmap(ctx, _run_sphere, cases)
     lines, idx = [], []
     for k, (c, r) in enumerate(zip(cases, results)):
-        if not oracle_only and r.get('chunks') is not None:
+        if not oracle_only and r.get('chunks') is not None and sum(len(x) for x in r['chunks']) > 40 * max(1, len(c['ra'])):
+            # the real cell lists hold every point dozens of times (the proved bound is 9 per point): not fed to the model, whose
+            # run time grows with the occupancy; reported as a disagreement with grid_occupancy_9n, judged by the oracle below
+            ctx.disagree('spheregroup:occupancy', c, {'cells-per-point': sum(len(x) for x in r['chunks']) / max(1, len(c['ra']))},
+                         'grid_occupancy_9n: at most 9 cells per point')
+        elif not oracle_only and r.get('chunks') is not None:
             lines.append({'p': 'C05', 'op': 'sphere', 'g': [len(c['ra'])] + r['rows'], 'chunks': [x for x in r['chunks'] if x]})
             idx.append(k)
         elif not oracle_only and len(c['ra']) == 1:
